@@ -15,7 +15,7 @@ From Knut Require Import Model.Str Model.Dec Model.Date Model.Account Model.Ledg
      Proofs.PortfolioDays Proofs.PortfolioReturns Proofs.PortfolioWeights Proofs.PortfolioWitness
      Proofs.PortfolioProofs Proofs.PortfolioTree Proofs.PortfolioMapping Proofs.PortfolioMapWitness
      Proofs.PortfolioTable Proofs.PortfolioTableLaw
-     Proofs.PortfolioValuesFull Proofs.PortfolioFlowsFull Proofs.PortfolioFullWitness.
+     Proofs.PortfolioValuesFull Proofs.PortfolioFlowsFull Proofs.PortfolioQuietDays Proofs.PortfolioFullWitness.
 Import ListNotations.
 Open Scope Q_scope.
 
@@ -297,6 +297,34 @@ Theorem C20_external_flows_zero_line : forall cfg ds out,
 Proof. exact external_flows_zero_line. Qed.
 Print Assumptions C20_external_flows_zero_line.
 
+(* the same from the days of the journal as the builder makes them from the directives (before
+   ComputePrices, Check and Valuate): a day that declares no price is valued at the prices of the day
+   before, so Valuate books no value adjustment on it, and its transactions keep their targets
+   (C20_quiet_days_valued).  Hence: if every day of the stretch is [quiet] in the journal -- no price
+   directive, no transaction with a @performance annotation -- the printed return is 0 or undefined. *)
+Theorem C20_external_flows_zero_source : forall cfg ds out,
+  returns_fixed cfg ds = COk out ->
+  exists b part perfs,
+    load ds = COk b /\ pf_partition cfg b = COk part /\
+    map pf_date perfs = map d_date (b_days (builder_touch b (end_dates part))) /\
+    out = perf_loop part (end_dates part) (Some 1) perfs /\
+    forall pre l p rest, perfs = pre ++ l ++ p :: rest ->
+      boundary part (end_dates part) pre ->
+      Forall (fun x => partition_contains part (pf_date x) = true /\ mem (end_dates part) (pf_date x) = false) l ->
+      partition_contains part (pf_date p) = true -> mem (end_dates part) (pf_date p) = true ->
+      (forall x, In x (b_days (builder_touch b (end_dates part))) -> In (d_date x) (map pf_date (l ++ [p])) -> quiet x) ->
+      exists r, In (pf_date p, r) out /\ is_or_undef r 0.
+Proof. exact external_flows_zero_source. Qed.
+Print Assumptions C20_external_flows_zero_source.
+
+Theorem C20_quiet_days_valued : forall cfg days days',
+  valued_days cfg days = COk days' ->
+  Forall2 (fun d d' => d_date d' = d_date d /\
+                       (d_prices d = [] -> map t_targets (d_txns d') = map t_targets (d_txns d)) /\
+                       (quiet d -> untargeted d')) days days'.
+Proof. exact quiet_days_valued. Qed.
+Print Assumptions C20_quiet_days_valued.
+
 (* the law of one period by itself: if on every processed day of the period the change in value
    is accounted for by what flowed in and out, the reported return is 0 or undefined *)
 Theorem C20_flows_explain_zero : forall part ends l p,
@@ -399,6 +427,9 @@ Example C20_w5_deposit_period :
   w5_perfs = join_perf (fst w5_vs) w5_fs /\ (exists pre rest, w5_perfs = pre ++ w5_l ++ w5_p :: rest) /\
   map pf_date (w5_l ++ [w5_p]) = [feb 10; feb 28] /\
   (forall x, In x w5_days -> In (d_date x) (map pf_date (w5_l ++ [w5_p])) -> untargeted x) /\
+  (exists b, load w2_journal = COk b /\ pf_partition w5_cfg b = COk w5_part /\
+             w5_src_days = b_days (builder_touch b (end_dates w5_part))) /\
+  (forall x, In x w5_src_days -> In (d_date x) (map pf_date (w5_l ++ [w5_p])) -> quiet x) /\
   boundary w5_part (end_dates w5_part) (firstn 3 w5_perfs) /\
   Forall (fun x => partition_contains w5_part (pf_date x) = true /\ mem (end_dates w5_part) (pf_date x) = false) w5_l /\
   partition_contains w5_part (pf_date w5_p) = true /\ mem (end_dates w5_part) (pf_date w5_p) = true /\
@@ -411,7 +442,8 @@ Example C20_w5_deposit_period :
 Proof.
   destruct w5_split as [Hs Hd].
   split; [exact w5_runs|]. split; [reflexivity|]. split; [exists (firstn 3 w5_perfs), []; exact Hs|]. split; [exact Hd|].
-  split; [rewrite Hd; exact w5_february_untargeted|]. split; [exact w5_boundary|].
+  split; [rewrite Hd; exact w5_february_untargeted|]. split; [exact w5_src|]. split; [rewrite Hd; exact w5_february_quiet|].
+  split; [exact w5_boundary|].
   destruct w5_stretch as [Hl [Hc Hm]]. split; [exact Hl|]. split; [exact Hc|]. split; [exact Hm|]. split; [exact w5_deposit|]. split; [exact w5_reported|exact w5_returns].
 Qed.
 
